@@ -422,24 +422,7 @@ impl Node {
                 }
             }
             Op::Nested { models } => {
-                // Synchronous use of a second, single-threaded simulation from within a handler.
-                // 1-3 models: single-threaded; 4: two worker threads; 5: single-threaded and the
-                // inner model panics (the inner simulation reports it, the outer handler goes on).
-                let inner_threads = if models == 4 { 2 } else { 1 };
-                let mut init = SimInit::with_num_threads(inner_threads);
-                let mut inner_addrs = Vec::new();
-                for k in 0..models.clamp(1, 3) {
-                    let mb: Mailbox<InnerModel> = Mailbox::new();
-                    inner_addrs.push(mb.address());
-                    init = init.add_model(InnerModel, mb, format!("inner{}", k));
-                }
-                if let Ok((mut inner, _sched)) = init.init(MonotonicTime::EPOCH) {
-                    for a in &inner_addrs {
-                        let _ = inner.process_event(InnerModel::ping, if models == 5 { 666u64 } else { 1u64 }, a);
-                    }
-                    drop(inner);
-                }
-                ctx.log(Ev::Note(format!("nested simulation with {} models built, run and dropped by node {}", models, self.idx)));
+                self.nested(models);
             }
             Op::Connect { port, target, cid } if port >= 100 => {
                 let rp = (port - 100) as usize;
@@ -467,14 +450,110 @@ impl Node {
     }
 }
 
+/// Start time of every nested simulation: far outside the range of the outer simulation's times,
+/// so that the ground-truth trace of time writes can tell the two apart.
+pub const INNER_T0: (i64, u32) = (-7_000_000_000, 123);
+
 /// Model of the nested simulations (`Op::Nested`).
-pub struct InnerModel;
+#[derive(Default)]
+pub struct InnerModel {
+    out: Output<u64>,
+}
 impl Model for InnerModel {}
 impl InnerModel {
     pub async fn ping(&mut self, x: u64) {
-        if x == 666 {
-            std::panic::panic_any("inner model panic");
+        match x {
+            666 => std::panic::panic_any("inner model panic"),
+            // one message through the output
+            2 => self.out.send(1).await,
+            // two messages through the output (to the model's own capacity-1 mailbox: the second
+            // send never completes)
+            3 => {
+                self.out.send(1).await;
+                self.out.send(1).await;
+            }
+            _ => {}
         }
+    }
+}
+
+impl Node {
+    /// Synchronous use of a second simulation from within a handler: it is built, run and
+    /// dropped while the outer executor is polling this model. Scenario `models`:
+    /// 1-3 = that many idle models, single-threaded; 4 = two worker threads; 5 = the inner
+    /// model panics; 6 = the inner model sends to a mailbox that is in no simulation
+    /// (`MessageLoss(1)`); 7 = the inner model stalls on its own full mailbox (`Deadlock`);
+    /// 8 = an event-source action of the inner simulation targets a dropped mailbox
+    /// (`NoRecipient` without a model); 9 = the inner model sends to a dropped mailbox
+    /// (`NoRecipient` naming it). The inner results are checked on the spot; the outer
+    /// simulation must be unaffected.
+    fn nested(&mut self, models: u8) {
+        use nexosim::simulation::ExecutionError as E;
+        let ctx = self.ctx.clone();
+        let inner_threads = if models == 4 { 2 } else { 1 };
+        let mut init = SimInit::with_num_threads(inner_threads);
+        let mut inner_addrs = Vec::new();
+        let mut keep_alive: Vec<Mailbox<InnerModel>> = Vec::new();
+        let count = if models <= 3 { models.max(1) } else if models == 4 { 3 } else { 1 };
+        for k in 0..count {
+            let mb: Mailbox<InnerModel> = if models == 7 { Mailbox::with_capacity(1) } else { Mailbox::new() };
+            let mut m = InnerModel::default();
+            match models {
+                6 => {
+                    let orphan: Mailbox<InnerModel> = Mailbox::new();
+                    m.out.connect(InnerModel::ping, orphan.address());
+                    keep_alive.push(orphan);
+                }
+                7 => m.out.connect(InnerModel::ping, mb.address()),
+                9 => {
+                    let gone: Mailbox<InnerModel> = Mailbox::new();
+                    m.out.connect(InnerModel::ping, gone.address());
+                    drop(gone);
+                }
+                _ => {}
+            }
+            inner_addrs.push(mb.address());
+            init = init.add_model(m, mb, format!("inner{}", k));
+        }
+        let mut src: EventSource<u64> = EventSource::new();
+        if models == 8 {
+            let gone: Mailbox<InnerModel> = Mailbox::new();
+            src.connect(InnerModel::ping, gone.address());
+            drop(gone);
+        }
+        let bad = |what: String| ctx.violation("c11_nested_misreported", format!("simulation nested in a handler of node {} (scenario {}): {}", self.idx, models, what));
+        match init.init(MonotonicTime::new(INNER_T0.0, INNER_T0.1).unwrap()) {
+            Ok((mut inner, _sched)) => {
+                for (k, a) in inner_addrs.iter().enumerate() {
+                    let arg = match models {
+                        5 => 666u64,
+                        6 | 9 => 2,
+                        7 => 3,
+                        _ => 1,
+                    };
+                    let r = if models == 8 { inner.process(src.event(1)) } else { inner.process_event(InnerModel::ping, arg, a) };
+                    let ok = match (models, k, &r) {
+                        (1..=4, _, Ok(())) => true,
+                        (5, 0, Err(E::Panic { model, payload })) => model == "inner0" && payload.downcast_ref::<&str>() == Some(&"inner model panic"),
+                        (6, 0, Err(E::MessageLoss(1))) => true,
+                        (7, 0, Err(E::Deadlock(v))) => v.len() == 1 && v[0].model == "inner0" && v[0].mailbox_size == 1,
+                        (8, 0, Err(E::NoRecipient { model: None })) => true,
+                        (9, 0, Err(E::NoRecipient { model: Some(m) })) => m == "inner0",
+                        _ => false,
+                    };
+                    if !ok {
+                        bad(format!("call {} returned {:?}", k, r));
+                    }
+                    if models >= 5 && !matches!(inner.process_event(InnerModel::ping, 1u64, a), Err(E::Terminated)) {
+                        bad("a further call did not return Terminated".into());
+                    }
+                }
+                drop(inner);
+            }
+            Err(e) => bad(format!("init returned {:?}", e)),
+        }
+        drop(keep_alive);
+        ctx.log(Ev::Note(format!("nested simulation scenario {} built, run and dropped by node {}", models, self.idx)));
     }
 }
 
